@@ -384,6 +384,75 @@ def shapes_stream(ctx, res):
                     break
 
 
+def sensitive_container_stream(ctx, res):
+    """fields that are THEMSELVES marked sensitive and hold containers: a list of configurations (schema items and config types), a list
+    of lists of configurations, a dict of configurations' lists, plain typed lists and dicts, an untyped field holding a list — under
+    a mask nothing of their non-empty value appears (neither the items' sensitive fields nor their other fields: the whole value is
+    the secret), in the tree and in every document; empty values stay as they are; without a mask nothing is altered"""
+    import cincoconfig as cc
+    acct = cc.Schema()
+    acct.holder = cc.StringField()
+    acct.iban = cc.StringField()
+    acct.pin = cc.StringField(sensitive=True)
+    A = cc.make_type(acct, "SensAcct")
+    for typed in (False, True):
+        cls = A if typed else acct
+        s = cc.Schema()
+        s.accounts = cc.ListField(cls, sensitive=True, default=lambda: [])
+        s.empty_accounts = cc.ListField(cls, sensitive=True, default=lambda: [])
+        s.groups = cc.ListField(cc.ListField(cls), sensitive=True, default=lambda: [])
+        s.by_owner = cc.DictField(cc.StringField(), cc.ListField(cls), sensitive=True, default=dict)
+        s.names = cc.ListField(cc.StringField(), sensitive=True, default=lambda: [])
+        s.codes = cc.DictField(cc.StringField(), cc.StringField(), sensitive=True, default=dict)
+        s.raw = cc.Field(sensitive=True)
+        s.sub.accounts = cc.ListField(cls, sensitive=True, default=lambda: [])
+        s.public = cc.ListField(cls, default=lambda: [])
+        cfg = s()
+
+        def mk(n):
+            return {"holder": "HOLDER-%02d-visible" % n, "iban": "IBAN-%02d-secret" % n, "pin": "PIN-%02d-secret" % n}
+        cfg.accounts = [mk(1), mk(2)]
+        cfg.groups = [[mk(3)], [mk(4)]]
+        cfg.by_owner = {"o": [mk(5)]}
+        cfg.names = ["NAME-06-secret"]
+        cfg.codes = {"k": "CODE-07-secret"}
+        cfg.raw = ["RAW-08-secret", {"k": "RAW-09-secret"}]
+        cfg.sub.accounts = [mk(10)]
+        cfg.public = [mk(11)]
+        hidden = ["IBAN-%02d-secret" % n for n in (1, 2, 3, 4, 5, 10)] + ["HOLDER-%02d-visible" % n for n in (1, 2, 3, 4, 5, 10)] + \
+                 ["PIN-%02d-secret" % n for n in (1, 2, 3, 4, 5, 10, 11)] + ["NAME-06-secret", "CODE-07-secret", "RAW-08-secret", "RAW-09-secret"]
+        shown = ["HOLDER-11-visible", "IBAN-11-secret"]
+        for mask in ("*", "<hidden>", ""):
+            case = {"stream": "sensitive-containers", "config_type": typed, "mask": mask}
+            res.case(stable(case), kind="sensitive-containers")
+            try:
+                tree = cfg.to_tree(sensitive_mask=mask)
+            except Exception as e:  # noqa
+                res.violate("C10:leak-in-tree", "rendering with a mask raised %s" % type(e).__name__, dict(case, error=str(e)[:120]))
+                continue
+            text = repr(tree)
+            leaked = [x for x in hidden if x in text]
+            if leaked:
+                res.violate("C10:leak-in-tree:sensitive-container", "the value of a field marked sensitive appears in the masked tree (the field holds a container)",
+                            dict(case, leaked=leaked[:5]))
+                continue
+            if any(x not in text for x in shown) or tree.get("empty_accounts") not in ([], None):
+                res.violate("C10:nonsensitive-changed", "under a mask a field that is not sensitive (or an empty sensitive one) is not rendered as without a mask", dict(case, tree=text[:300]))
+            for fmt in ("json", "yaml", "pickle", "xml", "bson"):
+                try:
+                    doc = cfg.dumps(format=fmt, sensitive_mask=mask)
+                except Exception:  # noqa
+                    res.hist["sensitive-containers:dumps-raised:" + fmt] += 1
+                    continue
+                leaked = [x for x in hidden if x.encode() in doc]
+                if leaked:
+                    res.violate("C10:leak-in-document:sensitive-container", "the value of a field marked sensitive appears in a masked document", dict(case, fmt=fmt, leaked=leaked[:5]))
+                    break
+        plain = cfg.to_tree()
+        if any(x not in repr(plain) for x in hidden + shown):
+            res.violate("C10:nomask-altered", "without a mask a sensitive container is not rendered in full", {"stream": "sensitive-containers", "config_type": typed})
+
+
 def nested_stream(ctx, res, n):
     """the walk that renders configurations held below nested containers (Config._render_nested) against the model's renderNested
     (Cinco/Config/Nested.lean, theorems in Props/C10b.lean): random nestings of lists, tuples and dicts holding real configurations
@@ -461,6 +530,7 @@ def run(ctx, n_quick=150, n_thorough=5000):
     guard(res, "C10", nested_stream, ctx, res, ctx.n(300, 8000))
     guard(res, "C10", late_field_stream, ctx, res)
     guard(res, "C10", shapes_stream, ctx, res)
+    guard(res, "C10", sensitive_container_stream, ctx, res)
     return res
 
 
